@@ -169,6 +169,62 @@ pub(super) fn fdp_one(""",
 
 pub(super) fn fdp_one(""",
   note='negating a product term skips a limb equal to exactly 1 (term = 2^(64k))')
+m('px_q22_sub_drops_last_term','C04','src/macros.rs',
+  """        impl<const N: u32> ops::SubAssign<(($posit, $posit), ($posit, $posit))> for $quire {
+            #[inline]
+            fn sub_assign(&mut self, rhs: (($posit, $posit), ($posit, $posit))) {
+                *self -= ((rhs.0).0, (rhs.1).0);
+                *self -= ((rhs.0).0, (rhs.1).1);
+                *self -= ((rhs.0).1, (rhs.1).0);
+                *self -= ((rhs.0).1, (rhs.1).1);""",
+  """        impl<const N: u32> ops::SubAssign<(($posit, $posit), ($posit, $posit))> for $quire {
+            #[inline]
+            fn sub_assign(&mut self, rhs: (($posit, $posit), ($posit, $posit))) {
+                *self -= ((rhs.0).0, (rhs.1).0);
+                *self -= ((rhs.0).0, (rhs.1).1);
+                *self -= ((rhs.0).1, (rhs.1).0);
+                *self -= ((rhs.0).1, (rhs.1).0);""",
+  note='generic-width PxE2<N> spelling `q -= ((a,b),(c,d))` into Q32E2 uses c twice')
+m('px_array_sub_adds','C04','src/macros.rs',
+  """            fn sub_assign(&mut self, rhs: ($posit, [$posit; $i])) {
+                for p in &rhs.1 {
+                    *self -= (rhs.0, *p);
+                }
+            }
+        }
+    )*}
+}
+pub(crate) use quire_add_sub_array_x;""",
+  """            fn sub_assign(&mut self, rhs: ($posit, [$posit; $i])) {
+                for p in &rhs.1 {
+                    *self += (rhs.0, *p);
+                }
+            }
+        }
+    )*}
+}
+pub(crate) use quire_add_sub_array_x;""",
+  note='generic-width array spelling `q -= (a,[b;N])` adds')
+m('px_trait_sub_product_adds','C04','src/quire32.rs',
+  """    fn sub_product(&mut self, p_a: PxE2<{ N }>, p_b: PxE2<{ N }>) {
+        let ui_a = p_a.to_bits();
+        let ui_b = p_b.to_bits();
+        ops::fdp(self, ui_a, ui_b, false);""",
+  """    fn sub_product(&mut self, p_a: PxE2<{ N }>, p_b: PxE2<{ N }>) {
+        let ui_a = p_a.to_bits();
+        let ui_b = p_b.to_bits();
+        ops::fdp(self, ui_a, ui_b, true);""",
+  note='Quire<PxE2<N>>::sub_product for Q32E2 adds')
+m('px_single_masks_low_byte','C04','src/macros.rs',
+  """        impl<const N: u32> ops::AddAssign<$posit> for $quire {
+            #[inline]
+            fn add_assign(&mut self, rhs: $posit) {
+                let ui = rhs.to_bits();""",
+  """        impl<const N: u32> ops::AddAssign<$posit> for $quire {
+            #[inline]
+            fn add_assign(&mut self, rhs: $posit) {
+                let ui = if N > 24 { rhs.to_bits() & !0xff | (rhs.to_bits() & 0xff) >> 1 << 1 } else { rhs.to_bits() };""",
+  note='generic-width `q += p` drops the lowest pattern bit for widths above 24')
 # ---------------- C12
 m('q8_clear_noop','C12','src/quire8.rs',
   "    pub fn clear(&mut self) {\n        *self = Self::ZERO;\n    }",
@@ -204,6 +260,14 @@ impl<const N: u32> crate::Quire<PxE2<{ N }>> for Q32E2 {""",
 
 impl<const N: u32> crate::Quire<PxE2<{ N }>> for Q32E2 {""",
   note='Quire<P32E2>::neg forwards to clear')
+m('px_from_posit_negated','C12','src/quire32/convert.rs',
+  """        let mut q = Self::ZERO;
+        q += (a, PxE2::ONE);
+        q""",
+  """        let mut q = Self::ZERO;
+        q -= (a, PxE2::ONE);
+        q""",
+  note='Q32E2::from(PxE2<N>) loads -p')
 # ---------------- C19
 m('p32_range_end_inclusive','C19','src/p32e2.rs',
   "rng.gen_range(0x_4000_0000_u32..0x_4800_0000);","rng.gen_range(0x_4000_0000_u32..=0x_4800_0000);",
